@@ -53,6 +53,15 @@ func (in *Interp) timeSub(t, u Value) *Term {
 	tw, te := in.timeParts(t)
 	uw, ue := in.timeParts(u)
 	d := in.arith(OpSub, te, ue, "Time.Sub")
+	if !in.intMode && !d.IsConst() {
+		// Time.Sub saturates instead of wrapping
+		zero64 := tc.BV(64, 0)
+		tNeg, uNeg, dNeg := tc.Lt(te, zero64, true), tc.Lt(ue, zero64, true), tc.Lt(d, zero64, true)
+		ovf := tc.And(tc.Not(tc.Eq(tNeg, uNeg)), tc.Not(tc.Eq(dNeg, tNeg)))
+		if in.branch(ovf) {
+			panic(pathEnd{"cut", "Time.Sub saturates (instants further apart than 292 years: outside the modelled clock range)"})
+		}
+	}
 	one := tc.BV(64, 1)
 	zero := tc.BV(64, 0)
 	maxD := in.i64c(1<<63 - 1)
@@ -185,11 +194,12 @@ func registerTime() {
 		tc := in.tc
 		sec, nsec := a[0].(*Term), a[1].(*Term)
 		if !in.intMode {
-			// keep |sec| < 2^33 so that sec*1e9 cannot wrap; the other side is cut
-			lim := tc.BV(64, 1<<33)
+			// keep |sec| < 2^32 so that sec*1e9 cannot wrap and differences of instants
+			// cannot saturate; the other side is cut
+			lim := tc.BV(64, 1<<32)
 			inr := tc.And(tc.Lt(tc.Neg(lim), sec, true), tc.Lt(sec, lim, true))
 			if !in.branch(inr) {
-				panic(pathEnd{"cut", "time.Unix seconds beyond +-2^33 (outside the modelled clock range)"})
+				panic(pathEnd{"cut", "time.Unix seconds beyond +-2^32 (outside the modelled clock range)"})
 			}
 		}
 		ns := tc.Add(tc.Mul(sec, in.i64c(1000000000)), nsec)
